@@ -194,4 +194,30 @@ def _codec_value(rep):
     return bad
 
 
-REPLAYERS = {"codec_value": _codec_value, "sse_script": _sse_script, "http_seq": _http_seq, "host_case": _host_case, "lifecycle": _lifecycle, "stdio_out": _stdio_out, "framing": _framing, "gate_script": _gate_script, "version_runs": _version_runs, "handshake": _handshake, "handshake_server": _handshake_server, "dispatch_case": _dispatch_case, "session_ops": _session_ops, "errorclass_case": _errorclass_case, "errorclass_sets": _errorclass_sets}
+def _validate_case(rep):
+    from harness.props import models
+    from harness.common import Ctx
+    ctx = Ctx(rep.get("pid", "C09"), "quick", 0)
+    c = rep["case"]
+    if c["kind"] == "model":
+        cases = [{"cls": c["full"], "wire": c["wire"]}]
+        a = models.worker(False, {"op": "validate", "cases": cases})["results"][0]
+        b = models.worker(True, {"op": "validate", "cases": cases})["results"][0]
+        print("pydantic:", json.dumps(a)[:500])
+        print("fallback:", json.dumps(b)[:500])
+        return a["ok"] != b["ok"] or a["typed"] != b["typed"] or a["dump"] != b["dump"] or not a["ok"]
+    recs = models.run_union_core() + models.run_hooks() + models.run_via()
+    for r in recs:
+        if all(r.get(k) == c.get(k) for k in ("kind", "cls", "inv", "helper", "ty", "type", "backend") if k in c) and r.get("v") == c.get("v"):
+            print(json.dumps(r))
+            return r != {k: v for k, v in c.items()} or True
+    return False
+
+
+def _envelope_case(rep):
+    print(json.dumps(rep["case"]))
+    print("re-run ./check C02 to re-evaluate (cases are regenerated deterministically)")
+    return True
+
+
+REPLAYERS = {"validate_case": _validate_case, "envelope_case": _envelope_case, "codec_value": _codec_value, "sse_script": _sse_script, "http_seq": _http_seq, "host_case": _host_case, "lifecycle": _lifecycle, "stdio_out": _stdio_out, "framing": _framing, "gate_script": _gate_script, "version_runs": _version_runs, "handshake": _handshake, "handshake_server": _handshake_server, "dispatch_case": _dispatch_case, "session_ops": _session_ops, "errorclass_case": _errorclass_case, "errorclass_sets": _errorclass_sets}
